@@ -2,7 +2,11 @@
 (* Finite instances of HttpState for TLC. *)
 EXTENDS HttpState
 
-R(tr, q, opn, vs, ext) == [tr |-> tr, q |-> q, opn |-> opn, vars |-> vs, ext |-> ext]
+R(tr, q, opn, vs, ext) == [tr |-> tr, q |-> q, opn |-> opn, vars |-> vs, ext |-> ext, acc |-> "-"]
+(* a request with an Accept header: "json" application/json, "gql" application/graphql-response+json,
+   "any" */*, "html" text/html (nothing recognised), "multi" text/html, application/json;q=0.9 *)
+RA(tr, q, opn, vs, acc) == [tr |-> tr, q |-> q, opn |-> opn, vars |-> vs, ext |-> "-", acc |-> acc]
+Accs == {"-", "json", "gql", "any", "html", "multi"}
 
 Texts == {"-", "Q1", "Q2", "QX"}
 Exts  == {"-", "X", "H:Q1", "H:Q2"}
@@ -21,12 +25,30 @@ RequestsQuick == ReqPost \cup ReqFresh({"GET", "WS"}) \cup ReqBad({"GET", "WS"})
 RequestsFull  == ReqPost \cup ReqFresh({"GET", "WS", "FORM", "MULTIPART", "SSE"})
                  \cup ReqBad({"GET", "WS", "FORM", "MULTIPART", "SSE"}) \cup ReqGraphql
 
+(* the header instance: GET / POST x {executes, fails validation, no operation, undecodable} x Accept;
+   the transports that send the configured headers as they are *)
+RequestsHdr == {RA(t, "Q1", "A", "-", a) : t \in {"GET", "POST"}, a \in Accs}
+               \cup {RA(t, "QX", "-", "-", a) : t \in {"GET", "POST"}, a \in Accs}
+               \cup {RA("POST", "-", "-", "-", a) : a \in Accs}
+               \cup {RA(t, "Q1", "A", "bad", a) : t \in {"GET", "POST"}, a \in {"-", "gql"}}
+               \cup {RA(t, "Q1", "A", "-", a) : t \in {"FORM", "GRAPHQL"}, a \in {"-", "gql"}}
+
 (* two requests in flight: a small alphabet *)
 RequestsConc == {R("POST", q, o, v, e) : q \in {"-", "Q1"}, o \in {"-", "A"},
                                           v \in {"-", "V1", "V2"}, e \in {"-", "H:Q1"}}
-                \cup {R("GET", "Q1", "A", "V1", "H:Q1"), R("GET", "-", "-", "V2", "H:Q1"), R("WS", "Q2", "-", "-", "X")}
+                \cup {[R("GET", "Q1", "A", "V1", "H:Q1") EXCEPT !.acc = "gql"], R("GET", "-", "-", "V2", "H:Q1"),
+                      R("WS", "Q2", "-", "-", "X")}
+
+(* three requests in flight, one per slot, every order of their Execute and Write steps *)
+HeldSeq == <<R("POST", "Q1", "A", "V1", "-"), RA("GET", "Q2", "A", "V2", "gql"), R("POST", "Q1", "B", "V2", "X")>>
+RequestsHeld == {HeldSeq[i] : i \in 1..3}
+HeldAssign == \A i \in 1..Slots : fl[i].pc \notin {"idle", "done"} => fl[i].r = HeldSeq[i]
 (* the negative configurations need two texts *)
 RequestsNeg == RequestsConc \cup {R("POST", "Q2", o, v, "-") : o \in {"-", "A"}, v \in {"-", "V1", "V2"}}
+
+CfgNone == {"none"}
+CfgXsb == {"xsb"}
+CfgAll == {"none", "xsb", "ct"}
 
 AllSix == {"q", "opn", "vars", "ext", "hdr", "rt"}
 No_q == AllSix \ {"q"}
